@@ -1,0 +1,21 @@
+//go:build verif
+// +build verif
+
+package server
+
+// Verification hooks (build tag "verif", add-only): the exported mode setters are coupled
+// (SetReadOnly(false) turns full-write on, SetFullWrite(false) turns read-only on) and the
+// admin token is read from the environment once at init.  These accessors let an external
+// harness put the request gate into each of its modes independently.
+
+// VerifSetModes sets the read-only flag, the full-write flag and the admin token as given.
+func VerifSetModes(readOnly, fullWrite bool, token string) {
+	readonly = readOnly
+	fullwrite = fullWrite
+	adminToken = token
+}
+
+// VerifModes returns the current read-only flag, full-write flag and admin token.
+func VerifModes() (readOnly, fullWrite bool, token string) {
+	return readonly, fullwrite, adminToken
+}
